@@ -901,6 +901,11 @@ func (h *fsmHandler) idle(ctx context.Context) (bgp.FSMState, *fsmStateReason) {
 				case adminStateDown:
 					// stop idle hold timer
 					idleHoldTimer.Stop()
+					// the outgoing connection manager of an earlier Active
+					// phase may still be connecting
+					if fsm.outgoingConnMgr != nil {
+						fsm.outgoingConnMgr.stop()
+					}
 
 				case adminStateUp:
 					// restart idle hold timer
